@@ -30,13 +30,13 @@ type Property interface {
 }
 
 type Plan struct {
-	Episodes   int
-	Batch      int  // scenarios per world process (1 = process per episode)
-	NeedRace   bool // build the -race world
-	NeedFine   bool // build the world with rule R4 (function-entry yields)
-	Exhaustive bool // the enumerated core of this tier is complete
-	Assumptions []string
-	RealStub   map[string][]string
+	Episodes       int
+	Batch          int  // scenarios per world process (1 = process per episode)
+	NeedRace       bool // build the -race world
+	NeedFine       bool // build the world with rule R4 (function-entry yields)
+	Exhaustive     bool // the enumerated core of this tier is complete
+	Assumptions    []string
+	RealStub       map[string][]string
 	MinimiseBudget int
 	// RaceEpisodes further episodes (indices Episodes ... Episodes+RaceEpisodes-1) run in the race world, RaceBatch per process.
 	RaceEpisodes int
@@ -90,11 +90,11 @@ type episodeOut struct {
 }
 
 type Summary struct {
-	Episodes    int
-	Violations  []Replay
-	Known       map[string]int
+	Episodes     int
+	Violations   []Replay
+	Known        map[string]int
 	Inconclusive int
-	ExitCode    int
+	ExitCode     int
 }
 
 // Options of one check invocation.
@@ -410,7 +410,9 @@ func reproduces(p Property, env *Env, sc *scen.Scenario, rule, witness string) (
 	}
 	// a property may accept a near witness as the same violation (race reports name whichever of
 	// several racing pairs on the same data the detector met first)
-	if sv, ok := p.(interface{ SameViolation(rule, w1, w2 string) bool }); ok {
+	if sv, ok := p.(interface {
+		SameViolation(rule, w1, w2 string) bool
+	}); ok {
 		for _, v := range p.Check(sc, run, env) {
 			if v.Rule == rule && sv.SameViolation(rule, witness, v.Witness) {
 				return &v, run
